@@ -7,6 +7,9 @@ A case is a list of steps on one object, each a public mutator call or a reader 
             mutator (every entry point of `impl.apply_op`, both classes) in the middle position, aimed at a
             returning instance, a raising one, and one that raises after a nested decorated call has returned, with every reader on both sides (all of them, or one chosen pair);
   history   long random histories (`harness/histories.py`) with readers sprinkled between the mutators;
+  derived   a step `['d', [route, pick]]` replaces the live object by a graph the library derived from it (minimal,
+            stationary, extended, summary, sub-graphs, conversions): an ordinary graph whose readers must answer as on a
+            fresh reconstruction.  The model starts again from a construction sequence of that graph's structure.
   constructed  a step `['c', route]` replaces the live object by the same graph built through a public constructor
             (`reconstruct`), followed by readers with no mutator in between: a constructor that leaves a memoised
             attribute filled shows here.  The model sees no event (same state, and its answers do not depend on what
@@ -104,6 +107,59 @@ def reconstruct(g, route):
         raise
     except Exception:  # noqa: BLE001 -- a route that refuses this graph
         return None
+
+
+DERIVE_TS = ['minimal', 'stationary', 'extend11', 'extend20', 'summary', 'from_matrices', 'copy']
+DERIVE_PLAIN = ['ancestral', 'descendant', 'parents', 'children', 'from_skeleton', 'to_ts', 'skeleton_rt']
+
+
+def derive(g, route, pick=0):
+    """a graph object the library itself hands out (derived graph, conversion): it is an ordinary graph, every reader on
+    it must answer as on a fresh reconstruction.  None when the route does not apply to this graph."""
+    from cai_causal_graph import CausalGraph, Skeleton, TimeSeriesCausalGraph
+    try:
+        names = g.get_node_names()
+        node = names[pick % len(names)] if names else None
+        if route == 'minimal':
+            return g.get_minimal_graph()
+        if route == 'stationary':
+            return g.get_stationary_graph()
+        if route == 'extend11':
+            return g.extend_graph(1, 1)
+        if route == 'extend20':
+            return g.extend_graph(2, 0, include_all_parents=False)
+        if route == 'summary':
+            return g.get_summary_graph()
+        if route == 'from_matrices':
+            return type(g).from_adjacency_matrices(*g.to_numpy_by_lag())
+        if route == 'copy':
+            return g.copy()
+        if route == 'ancestral':
+            return g.get_ancestral_graph(node)
+        if route == 'descendant':
+            return g.get_descendant_graph(node)
+        if route == 'parents':
+            return g.get_parents_graph(node)
+        if route == 'children':
+            return g.get_children_graph(node)
+        if route == 'from_skeleton':
+            return type(g).from_skeleton(g.skeleton)
+        if route == 'skeleton_rt':
+            return type(g).from_skeleton(Skeleton.from_dict(g.skeleton.to_dict(), graph_class=type(g)))
+        if route == 'to_ts':
+            return TimeSeriesCausalGraph.from_causal_graph(g)
+    except RecursionError:
+        raise
+    except Exception:  # noqa: BLE001 -- the route refuses this graph (not a DAG, odd names, ...)
+        return None
+    return None
+
+
+def rebuild_ops(h):
+    """a construction sequence for the structure of `h` (names, typed oriented edges): what the model is told"""
+    ops = [['add_node', n, 'unspecified', {}] for n in h.get_node_names()]
+    ops += [['add_edge', a, b, t, {}, False] for a, b, t in _edges_of(h)]
+    return ops
 
 
 def _unoriented(g):
@@ -530,6 +586,48 @@ def constructed_case(rng, cls):
     return {'cls': cls, 'gmeta': {}, 'steps': steps, 'family': 'constructed'}
 
 
+def derived_case(rng, cls):
+    """[a small history] + derive (the object is replaced by a derived graph / conversion the library hands out) + readers
+    with no mutator in between + sometimes one mutator and readers again"""
+    gen = histories.Gen(rng, cls)
+    steps = []
+    dagish = rng.random() < 0.7
+    lag0 = [histories.ts_name(v, 0) for v in histories.TS_VARS]
+    past = [histories.ts_name(v, l) for v in histories.TS_VARS[:3] for l in (-2, -1, 0)]
+    for _ in range(rng.randint(1, 7)):
+        if cls == 'ts' and rng.random() < 0.7:
+            a, b = rng.choice(past), rng.choice(lag0 if rng.random() < 0.6 else past)
+        else:
+            a, b = rng.choice(gen.pool), rng.choice(gen.pool)
+        op = ['add_edge', a, b, '->' if dagish or rng.random() < 0.5 else rng.choice(histories.TYPES), {}, True]
+        impl.apply_op(gen.g, op)
+        steps.append(['m', op])
+    if rng.random() < 0.4:
+        op = ['add_node', gen.fresh(), 'unspecified', {}]
+        impl.apply_op(gen.g, op)
+        steps.append(['m', op])
+    if rng.random() < 0.3:
+        steps += [['r', x] for x in rng.sample(readers_of(cls), 2)]
+    pick = rng.randrange(8)
+    routes = [r for r in (DERIVE_TS if cls == 'ts' else DERIVE_PLAIN) if derive(gen.g, r, pick) is not None]
+    if not routes:
+        routes = ['copy'] if cls == 'ts' else ['parents']
+    route = rng.choice(routes)
+    h = derive(gen.g, route, pick)
+    cls2 = cls if h is None else ('ts' if impl.is_ts(h) else 'plain')
+    steps.append(['d', [route, pick]])
+    rs = readers_of(cls2)[:]
+    rng.shuffle(rs)
+    steps += [['r', x] for x in (rs if rng.random() < 0.6 else rs[:rng.randint(1, 3)])]
+    if h is not None and rng.random() < 0.4:
+        gen2 = histories.Gen(rng, cls2)
+        gen2.g = h
+        steps.append(['m', gen2.next_op()])
+        rng.shuffle(rs)
+        steps += [['r', x] for x in rs[:rng.randint(1, len(rs))]]
+    return {'cls': cls, 'gmeta': {}, 'steps': steps, 'family': 'derived'}
+
+
 class Lane(LaneBase):
     PROP = 'C04'
     THEOREMS = 'auto'
@@ -542,7 +640,9 @@ class Lane(LaneBase):
             'to_gml_string; ts: variables, is_minimal_graph, is_stationary_graph, max lags, adjacency_matrices); plus '
             'long random histories with readers sprinkled in; plus graphs that reach the readers straight out of a public '
             'constructor (from_dict, copy, from_adjacency_matrix, from_networkx, from_gml_string, from_skeleton, '
-            'from_adjacency_matrices, from_causal_graph; validation on) with no mutator in between. Every answer is compared with a freshly reconstructed '
+            'from_adjacency_matrices, from_causal_graph; validation on) or as a derived graph the library hands out '
+            '(minimal, stationary, extended, summary, ancestral / descendant / parents / children sub-graphs, '
+            'from_skeleton, class conversion) with no mutator in between. Every answer is compared with a freshly reconstructed '
             'never-queried copy (multi-valued answers are validated) and with the Lean cache model, which also '
             'predicts after every call which of the 8 memoised attributes are filled. Non-trivial: some cache was '
             'warm when a mutator changed the graph or raised, and a reader ran afterwards; distinct by (class, '
@@ -585,6 +685,8 @@ class Lane(LaneBase):
                                 yield triple_case(rng, cls, kind, want, [r1], [r2], rng.randint(1, 7))
         for i in range(400 if quick else 4000):
             yield constructed_case(rng, 'ts' if i % 2 else 'plain')
+        for i in range(500 if quick else 5000):
+            yield derived_case(rng, 'plain' if i % 3 == 0 else 'ts')
         for _ in range(600 if quick else 5000):
             yield history_case(rng, 'ts' if rng.random() < 0.5 else 'plain', rng.randint(8, 30))
 
@@ -598,6 +700,22 @@ class Lane(LaneBase):
             Lane._own_client = core.ModelClient()
         reply = Lane._own_client.ask([' '.join(['cache', 'runocc'] + toks)])[0]
         return [item.rsplit('@', 1)[-1] for item in reply.split(' ')] if '@' in reply else None
+
+    def _model_accepts(self, cls, ops):
+        """does the model build this structure (every op answers ok)?  -- own driver process"""
+        from harness import core
+        try:
+            if Lane._own_client is None:
+                Lane._own_client = core.ModelClient()
+            toks = [cls, impl.enc_meta({})]
+            for o in ops:
+                toks += ['|'] + op_tokens(o)
+            if not ops:
+                return True
+            reply = Lane._own_client.ask([' '.join(['cache', 'run'] + toks)])[0]
+            return reply.split(' ') == ['ok'] * len(ops)
+        except Exception:  # noqa: BLE001
+            return False
 
     def run_case(self, case):
         cls = case['cls']
@@ -613,6 +731,7 @@ class Lane(LaneBase):
         last_mut = None
         warm_at_mut = None
         constructed = False
+        segments = []
         for i, (what, arg) in enumerate(case['steps']):
             if what == 'm':
                 occ_before = occupancy(g)
@@ -630,6 +749,29 @@ class Lane(LaneBase):
                 tags.add(f'{cls}:{arg[0]}:{how}')
                 last_mut = (arg[0], outcome)
                 warm_at_mut = occ_before if ('1' in occ_before and (changed or res != 'ok')) else None
+            elif what == 'd':
+                # the object is replaced by a graph the library derived from it; the model starts again from a
+                # construction sequence of that graph's structure (second protocol line of the case)
+                h = None if strict else derive(g, arg[0], arg[1])
+                ops2 = rebuild_ops(h) if h is not None else None
+                cls2 = None if h is None else ('ts' if impl.is_ts(h) else 'plain')
+                if h is not None and not self._model_accepts(cls2, ops2):
+                    h = None
+                    tags.add('derived:model-cannot-rebuild')
+                if h is None:
+                    tags.add('derived:route-not-applicable')
+                else:
+                    segments.append((toks, expected))
+                    g, cls = h, cls2
+                    toks = [cls2, impl.enc_meta({})]
+                    for o in ops2:
+                        toks += ['|'] + op_tokens(o)
+                    expected = ['ok'] * len(ops2)
+                    occs = []
+                    constructed = True
+                    tags.add(f"{case['cls']}:derived:{arg[0]}")
+                    last_mut = ('derive:' + arg[0], 'ok')
+                    warm_at_mut = None
             elif what == 'c':
                 # the object is replaced by the same graph out of a public constructor; for the model nothing happens
                 # (same state; its answers do not depend on what is memoised -- that is the theorem)
@@ -653,6 +795,8 @@ class Lane(LaneBase):
                             f()
                         except Exception:  # noqa: BLE001
                             pass
+                if arg not in readers_of(cls):
+                    continue                # (the derived object turned out to be of another class than predicted)
                 call, ans, bad = do_reader(g, arg)
                 tags.add('reader:' + arg)
                 if call is not None:
@@ -666,7 +810,7 @@ class Lane(LaneBase):
                 if warm_at_mut is not None:
                     nontrivial = True
                     keys.append((cls,) + last_mut + (warm_at_mut, arg))
-                elif constructed and last_mut and last_mut[0].startswith('construct:'):
+                elif constructed and last_mut and last_mut[0].startswith(('construct:', 'derive:')):
                     nontrivial = True
                     keys.append((cls,) + last_mut + ('fresh-from-constructor', arg))
             for b in stale_caches(g):
@@ -692,11 +836,15 @@ class Lane(LaneBase):
                 more = any(a == '1' and b == '0' for o, m in zip(occs, mocc) for a, b in zip(o, m))
                 tags.add('occupancy:code-keeps-a-cache-the-model-resets' if more else
                          'occupancy:code-resets-or-skips-a-cache-the-model-keeps')
-        if case.get('family') in ('triple', 'constructed'):
+        if case.get('family') in ('triple', 'constructed', 'derived'):
             key = hashlib.sha1(json.dumps(sorted(set(keys))).encode()).hexdigest()
         else:
             key = hashlib.sha1(impl_reply.encode()).hexdigest()
-        return {'lines': [line], 'impl': [impl_reply], 'oracle': oracle, 'nontrivial': nontrivial, 'key': key,
+        lines, impls = [line], [impl_reply]
+        for t, e in segments:
+            lines.insert(len(lines) - 1, ' '.join(['cache', 'run'] + t))
+            impls.insert(len(impls) - 1, ' '.join(e) if e else '.')
+        return {'lines': lines, 'impl': impls, 'oracle': oracle, 'nontrivial': nontrivial, 'key': key,
                 'tags': sorted(tags)}
 
     # -- reporting ----------------------------------------------------------------------------------------
